@@ -4252,6 +4252,10 @@ class TLSConnection(TLSRecordLayer):
                 self._pre_client_hello_handshake_hash = \
                     self._handshake_hash.copy()
 
+                # the second ClientHello is not protected, so the negotiated
+                # record size limit does not apply to it (RFC 8449, section 4)
+                recv_limit = self._recv_record_limit
+                self._recv_record_limit = 2**14
                 for result in self._getMsg(ContentType.handshake,
                                            HandshakeType.client_hello):
                     if result in (0, 1):
@@ -4259,6 +4263,7 @@ class TLSConnection(TLSRecordLayer):
                     else:
                         break
                 clientHello = result
+                self._recv_record_limit = recv_limit
 
                 # verify that the new key share is present
                 ext = clientHello.getExtension(ExtensionType.key_share)
